@@ -105,6 +105,7 @@ class C01(engine.Property):
         "half-assigned-edge-created",
         "value-equal-vertices-in-play",
         "handover-override-ran",
+        "override-raised-after-recording-the-link",
     ]
 
     def make_config(self, rng):
@@ -128,6 +129,13 @@ class C01(engine.Property):
             # value-equal vertices: few tags, so equal-but-distinct objects abound
             cfg["vertex_classes"] = ["EqVertex"] if rng.random() < 0.5 else ["EqVertex", "Vertex"]
             cfg["value_equal"] = True
+        elif rng.random() < 0.12:
+            # a vertex whose add_to_link override raises AFTER the base class
+            # recorded the link: the call fails, both sides must still agree
+            cfg["vertex_classes"] = ["LatePortVertex"] if rng.random() < 0.5 else ["LatePortVertex", "Vertex"]
+        if rng.random() < 0.1:
+            # an edge class whose instances are falsy while they are being built
+            cfg["edge_classes"] = sorted(set(cfg["edge_classes"]) | {"SpanEdge"})
         return cfg
 
     def start(self, cfg):
@@ -172,6 +180,9 @@ class C01(engine.Property):
         if out is None:
             return None, None
         st.stats["op:" + op["op"]] += 1
+        if out.get("exc") == "InjectedFault":
+            st.stats["probe:override-raised-after-recording-the-link"] += 1
+            st.stats["fault:exception-out-of-subclass-override"] += 1
         if "exc" in out:
             st.stats["fault:failing-call"] += 1
             st.stats["failing-call:" + op["op"] + ":" + out["exc"]] += 1
